@@ -6,3 +6,6 @@ import StirVerif.C11.Props
 import StirVerif.C06.Props
 import StirVerif.C01.Props
 import StirVerif.C18.Props
+import StirVerif.C13.Props
+import StirVerif.C14.Props
+import StirVerif.C02.Props
